@@ -207,7 +207,8 @@ func (r *verifFaultyReader) PathContext(path lang.Path) (*PathContext, error) {
 func VerifH_C14_WorkspaceSymbols() {
 	type item struct{ path, name string }
 	srcs := map[string]map[string]string{
-		"pa": {"a.tf": "alpha = 1\nres \"aws\" \"x\" {\n  inner = 1\n}\n", "b.tf": "beta = 2\n"},
+		// (the block header is written with two blanks: a symbol's name is built from type and labels, not copied from the text)
+		"pa": {"a.tf": "alpha = 1\nres  \"aws\"  \"x\" {\n  inner = 1\n}\n", "b.tf": "beta = 2\n"},
 		"pb": {"c.tf": "gamma = 3\nalphabet = 4\n"},
 		"pc": {"d.tf": "mod \"alpha\" {\n}\n", "e.tf": "\n"},
 	}
@@ -228,7 +229,7 @@ func VerifH_C14_WorkspaceSymbols() {
 		r.ctxs[p] = &PathContext{Files: files}
 		r.fail[p] = verifBool("fail-" + p)
 	}
-	query := []string{"", "alpha", "a", "res", "zz", "\"aws\""}[verifChoice("query", 6)]
+	query := []string{"", "alpha", "a", "res", "zz", "\"aws\"", "res \"aws\"", "s\" \"x"}[verifChoice("query", 8)]
 	d := NewDecoder(r)
 	d.SetContext(NewDecoderContext())
 	syms, err := d.Symbols(context.Background(), query)
@@ -254,12 +255,3 @@ func VerifH_C14_WorkspaceSymbols() {
 	verifReach("end")
 }
 
-// verifContains: strings.Contains re-stated for concrete strings.
-func verifContains(s, sub string) bool {
-	for i := 0; i+len(sub) <= len(s); i++ {
-		if s[i:i+len(sub)] == sub {
-			return true
-		}
-	}
-	return false
-}
